@@ -1,11 +1,11 @@
 SPECIFICATION Spec
 CONSTANTS
-  MaxSlot = 5
+  MaxSlot = 4
   MaxVer = 1
-  MaxReorgs = 2
-  MaxCrashes = 0
+  MaxReorgs = 1
+  MaxCrashes = 1
   Gated = FALSE
-  Cfgs <- MCCfgs
-  OraclesFor <- MCOraclesAB
+  Cfgs <- MCCfgsNoFT
+  OraclesFor <- MCOraclesA
 INVARIANTS TypeOK JobTimeRight JobCoversExactly NoSlotTwice OnlyStrictlyLaterOnStart SyncWindowRight EpochTickOnce NoFutureDutyUnscheduled NoStaleJob ReorgActedOn
 CHECK_DEADLOCK FALSE
